@@ -224,7 +224,9 @@ def gen_history(run_seed: int, cfg: dict) -> dict:
         if o.get("abort") is None:
             o.pop("abort", None)
     env = {"rglob_seed": r.randrange(1 << 30) if (faults and r.random() < 0.5) else None, "style": style}
-    if r.random() < 0.12:
+    import os
+
+    if r.random() < 0.12 or os.environ.get("VERIF_C14_FORCE_STRICT"):  # (env knob: soak the strict mode only)
         env["np_strict"] = True  # the caller runs numpy in strict mode: numpy.seterr(divide/invalid/over = "raise")
     return {"env": env, "pops": pops, "ops": ops}
 
